@@ -22,7 +22,11 @@ Section Sem.
     | PMax m excl => py_le_gen excl x m                 (* val <= m  /  val < m *)
     | PMultipleOf f => py_mod_is_zero x f
     | PChoices cs =>
-        if hashable (chashable E) x then Ok (py_in x cs) else Exn ExType
+        (* [val in a_set]: an unhashable *set* argument is looked up as a frozenset, no TypeError *)
+        match unsub x with
+        | VSet _ => Ok (py_in x cs)
+        | _ => if hashable (chashable E) x then Ok (py_in x cs) else Exn ExType
+        end
     | PEqualTo m => py_eq_p x m
     | PMinItems n => pbind (py_len x) (fun l => Ok (n <=? l))
     | PMaxItems n => pbind (py_len x) (fun l => Ok (l <=? n))
